@@ -258,9 +258,39 @@ def print_stage(R, tier, rng):
                          py=f"src = RaggedArray({B if len(B) < 9 else '[[10*i+j for j in range(i%4)] for i in range(30)]'}, dtype=float); v = src{sname}; [{kind}(v)]; src[i] = -src[i] - 1 for every non-empty row; v.tolist(); src.tolist()")
 
 
+def source_read_stage(R, tier, rng):
+    """a read of the SOURCE (row reductions, printing, size queries: whatever the source may cache about itself) before a selection that keeps
+    the number of rows but not the rows (a repeated index, a permutation, a reversal, a mask of all rows): the selection's size, cells,
+    row reductions and running sums are the same with and without that read (the two runs are compared with each other, the run without
+    the read with plain lists)"""
+    import numpy as np
+    from npstructures import RaggedArray
+    from harness.fam_ra2 import kl
+    SRC = [[[1, 2, 3], [4], [5, 6]], [[7], [1, 2, 3, 4], [5, 6], [9, 9, 9]], [[1, 2], [3, 4, 5, 6, 7], [8]], [[1], [2, 3]]]
+    READS = [("sum(axis=-1)", lambda a: a.sum(axis=-1)), ("max(axis=-1)", lambda a: a.max(axis=-1)), ("repr", lambda a: repr(a)), ("size", lambda a: a.size),
+             ("str", lambda a: str(a)), ("mean(axis=-1)", lambda a: a.mean(axis=-1)), ("nonzero", lambda a: np.nonzero(a)), ("ravel", lambda a: a.ravel()), ("tolist", lambda a: a.tolist())]
+    for B in SRC:
+        n = len(B)
+        IDX = [[0] * (n - 1) + [n - 1], [n - 1] * n, [0, 0] + list(range(2, n)), list(range(n))[::-1], [(i + 1) % n for i in range(n)], [-1] + list(range(1, n))]
+        for idx in IDX:
+            rows = [B[i] for i in idx]
+            want = [sum(len(r) for r in rows), kl(rows), kl([sum(r) for r in rows]), kl([list(np.cumsum(r)) for r in rows]), [len(r) for r in rows]]
+            for spell, mkidx in (("list", lambda: list(idx)), ("array", lambda: np.array(idx))):
+                for rname, rd in READS:
+                    def program(with_read):
+                        a = RaggedArray(B)
+                        if with_read: rd(a)
+                        b = a[mkidx()]
+                        return [int(b.size), kl(b.tolist()), kl(np.asarray(b.sum(axis=-1))), kl(np.add.accumulate(b, axis=-1).tolist()), [int(x) for x in b.shape[-1]]]
+                    withr = guarded(lambda: program(True)); without = guarded(lambda: program(False))
+                    R.record(f"source-read {B}[{spell} {idx}] read:{rname}", withr, without, want, True, "source-read-then-select/" + rname,
+                             py=f"a = RaggedArray({B}); [{rname} of a]; b = a[{idx}]  ({spell}); b.size, b.tolist(), b.sum(axis=-1), np.add.accumulate(b, axis=-1).tolist(), b.shape[-1]")
+
+
 def run(R, tier, rng):
     shared_buffer_stage(R, tier, rng)
     print_stage(R, tier, rng)
+    source_read_stage(R, tier, rng)
     n_hist = 2500 if tier == "thorough" else 700
     pairs = []          # (H ops, H' ops, insertion position, description)
     # the refuting witness of C10_refuted_witness first (corpus)
